@@ -253,7 +253,7 @@ func refShape(ref []refTok) string {
 func init() {
 	register(&propInfo{
 		id: "C01", fn: checkC01, multiConfig: true,
-		explanation: "Static conformance of the wire codec: the layout of every registered message type is extracted from its encode and decode methods by abstract interpretation of the syntax tree (the codecs are straight-line code over ~20 buffer primitives, so the layout does not depend on field values) and compared (r1) with the reference message numbering, (r2) field by field with an independent table of 9P2000.L/.Google.N layouts kept inside the checker, (r3) encode against decode including the struct field each wire item is written from / read into and coverage of every struct field, (r4) for value-preserving conversions, (r5) for permission masking exactly where the protocol has permission fields, (r6) for the AttrMask/SetAttrMask bit tables against P9_GETATTR_*/P9_SETATTR_*, (r7) for the 7-byte header built in send() and parsed in recv(), (r8) for payloader FixedSize/count agreement, (r9) for whole-entry truncation in rreaddir.encode. Decides layout and symmetry for all field values at once; does not execute the codec. (r10) the frame that leaves is the frame that was encoded: send hands its pooled buffer back only after the write returned (the rule of C18.r3).",
+		explanation: "Static conformance of the wire codec: the layout of every registered message type is extracted from its encode and decode methods by abstract interpretation of the syntax tree (the codecs are straight-line code over ~20 buffer primitives, so the layout does not depend on field values) and compared (r1) with the reference message numbering, (r2) field by field with an independent table of 9P2000.L/.Google.N layouts kept inside the checker, (r3) encode against decode including the struct field each wire item is written from / read into and coverage of every struct field, (r4) for value-preserving conversions, (r5) for permission masking exactly where the protocol has permission fields, (r6) for the AttrMask/SetAttrMask bit tables against P9_GETATTR_*/P9_SETATTR_*, (r7) for the 7-byte header built in send() and parsed in recv(), (r8) for payloader FixedSize/count agreement, (r9) for whole-entry truncation in rreaddir.encode. Decides layout and symmetry for all field values at once; does not execute the codec. (r10) the frame that leaves is the frame that was encoded: send hands its pooled buffer back only after the write returned (the rule of C18.r3). (r10, continued) received bytes land at their offsets: the vectored read of fixed part and payload advances by exactly what was delivered (the rules of C17.r2/r3).",
 		assumptions: []string{"encoding/binary.LittleEndian implements little-endian byte order", "strings and lists are at most 65535 long (the property's stated range; u16 length prefixes)", "fid values fit in 32 bits (allocator limit, checked under C10.r1)"},
 		trusted:     []string{"reference layout table in checker/c01.go (transcribed from the protocol documents)"},
 	})
@@ -402,6 +402,10 @@ func checkC01(r *Run) {
 	// (the rule of C18.r3) - otherwise a concurrent send or recv overwrites a frame in flight.
 	if r.borrowed == nil {
 		r.borrow(checkC18, map[string]string{"r3": "r10"})
+		// ... and the bytes that arrive are put where they belong: the vectored read advances by
+		// exactly what each read delivered (the rules of C17.r2/r3), or a payload is reconstructed
+		// with a hole or a shift
+		r.borrow(checkC17, map[string]string{"r2": "r10", "r3": "r10"})
 	}
 }
 
